@@ -904,6 +904,43 @@ def eval_construct(ck, ctx, mo, st):
                         "asymmetric_dm_dpm_straddle_seam" if straddle else "asymmetric_dm_off")
 
 
+def conditional_cases(ck):
+    """`frequency.conditional`: the shape chosen per position by a boolean array — each position has exactly the requested
+    height, is non-negative and equals the shape selected for it built on its own."""
+    import xarray as xr
+    from wavespectra.construct import frequency as cf
+
+    rng = ck.rng
+    for it in range(30 if ck.tier == "quick" else 400):
+        freq, _ = gen_fgrid(rng)
+        n = rng.randint(1, 4)
+        site = {"site": np.arange(n)}
+        fps = [gen_fp(rng, freq)[0] for _ in range(n)]
+        hss = [rng.choice([0.25, 1.0, 2.5, 7.0]) for _ in range(n)]
+        conds = [rng.random() < 0.5 for _ in range(n)]
+        wt, wf = rng.choice([("jonswap", "gaussian"), ("gaussian", "jonswap"), ("pierson_moskowitz", "gaussian"), ("jonswap", "pierson_moskowitz")])
+        gamma, gw = rng.choice([1.0, 2.0, 3.3]), rng.choice([0.01, 0.02, 0.05])
+        mk = lambda v, dt=float: xr.DataArray(np.array(v, dtype=dt), dims="site", coords=site)
+        case = dict(freq=[float(x) for x in freq], fp=[float(x) for x in fps], hs=hss, cond=conds, when_true=wt, when_false=wf, gamma=gamma, gw=gw)
+        ck.case(("conditional", wt, wf, n > 1, all(conds) or not any(conds)), True, sample=dict(op="conditional", when_true=wt, when_false=wf, n=n))
+        try:
+            out = cf.conditional(freq, mk(hss), mk(fps), mk(conds, bool), when_true=wt, when_false=wf, gamma=gamma, gw=gw)
+            ref = {nm: getattr(cf, nm)(freq=freq, hs=mk(hss), fp=mk(fps), gamma=gamma, gw=gw) for nm in (wt, wf)}
+            hsm = out.spec.hs().values
+        except Exception as e:
+            ck.fail("conditional", f"raised {type(e).__name__}: {e}", case, "crash")
+            continue
+        for i in range(n):
+            o = np.asarray(out.isel(site=i).values, dtype=float)
+            r = np.asarray(ref[wt if conds[i] else wf].isel(site=i).values, dtype=float)
+            if (o < 0).any():
+                ck.fail("conditional", f"negative density at position {i}", case, "conditional_negative")
+            elif not np.allclose(o, r, rtol=1e-12, atol=0):
+                ck.fail("conditional", f"position {i} (cond={conds[i]}) is not the {wt if conds[i] else wf} spectrum built on its own", case, "conditional_shape")
+            elif abs(float(hsm[i]) - hss[i]) > 1e-9 * hss[i]:
+                ck.fail("conditional", f"position {i}: requested hs {hss[i]}, measured {float(hsm[i])}", case, "conditional_hs")
+
+
 def run_check():
     ck = Check("C15")
     ck.extra["rule"] = ("generated constructor calls; signature = (nf class, nd class, family, shape kind, spreading kind / grid kind, "
@@ -928,6 +965,7 @@ def run_check():
     for ctx, resp in zip(ctxs, resps):
         st, mo = parse_resp(resp) if resp != "nan" else ("nan", "nan")
         ev[ctx["mode"]](ck, ctx, mo, st)
+    conditional_cases(ck)
     ck.assumptions = [
         "transcendental tables (exp, gamma**x, tanh/sinh, cos**2s) are evaluated by the harness in float64 from the published formulas; "
         "the Lean theorems quantify over all tables with the stated hypotheses (positivity, function of the wrapped distance)",
